@@ -213,9 +213,10 @@ def run(tier):
     small['net/server']['packets'] += [{'family': 'Talk', 'action': 'Reply', 'body': [F('p', 'Pt'), F('msg', 'string')]}]
     trees.insert(0, dict(name='small', tree=small))
     for t in trees:
-        entries.append(dict(name=t['name'], tree=t['tree'], expect=True, rule='(valid tree)'))
+        # hand-written trees are valid by construction; for a random tree the verdict of the generator is only compared with the model's
+        entries.append(dict(name=t['name'], tree=t['tree'], expect=(True if (t['name'] == 'small' or t['name'].startswith('mini-eo')) else None), rule='(valid tree)', base=t['name']))
         for rule, mt in tree_edits(t['tree'], rng):
-            entries.append(dict(name=f"{t['name']}+{rule}", tree=mt, expect=False, rule=rule, ctx='declarations'))
+            entries.append(dict(name=f"{t['name']}+{rule}", tree=mt, expect=False, rule=rule, ctx='declarations', base=t['name']))
         if quick and t['name'].startswith('mini-eo'):
             continue      # the large corpus trees host instruction-level edits in the thorough tier only
         combos = []
@@ -242,21 +243,26 @@ def run(tier):
         for rule, ctx, where, as_packet, body in picked:
             mt = with_host(t['tree'], body, where, as_packet)
             if mt is not None:
-                entries.append(dict(name=f"{t['name']}+{rule}@{ctx}@{where or 'root'}{'(packet)' if as_packet else ''}", tree=mt, expect=False, rule=rule, ctx=ctx))
+                entries.append(dict(name=f"{t['name']}+{rule}@{ctx}@{where or 'root'}{'(packet)' if as_packet else ''}", tree=mt, expect=False, rule=rule, ctx=ctx, base=t['name']))
     run_entries(C, runner, entries)
     # ---- oracle on the implementation: every rule-violating tree is rejected, every valid tree accepted
     byrule = {}
     nrej = 0
+    # a random base tree the generator itself rejects cannot host single-rule edits: its variants are only compared with the model
+    bad_bases = {e['base'] for e in entries if e['rule'] == '(valid tree)' and e['expect'] is None and not e['result'].get('accepted')}
+    C.cov['random_base_trees_rejected_by_the_generator'] = sorted(bad_bases)
     for e in entries:
         r = e['result']
+        if e['base'] in bad_bases:
+            continue
         if 'driver_error' in r:
             C.broken.append(dict(kind='correspondence', stream='accept-reject', msg=r['driver_error'][:300]))
             continue
         byrule.setdefault(e['rule'], [0, 0])
         byrule[e['rule']][0] += 1
-        if e['expect'] and not r['accepted']:
+        if e['expect'] is True and not r['accepted']:
             C.violation(f"valid tree '{e['name']}' was rejected: {r['error']}", dict(unit='protocol_code_generator', input=dict(tree=e['name'], xml=tree_xml(e['tree']))))
-        if not e['expect']:
+        if e['expect'] is False:
             if r['accepted']:
                 key = 'F7-named-hardcoded-not-type-checked' if e['rule'] in ('hardcoded-wrong-type-named-int', 'hardcoded-wrong-type-named-bool') else None
                 C.violation(f"specification breaking rule '{e['rule']}' ({e.get('ctx')}) was accepted and code was emitted: tree '{e['name']}'",
